@@ -974,7 +974,7 @@ def _run_cases(ck, tier, D, meta_live, stats, tmp):
         hists = gen_histories(rng, list(fi["fresh"]), npairs_from=3 if tier == "quick" else 4, nrandom=2)
         for hi, hist in enumerate(hists):
             via = hi % 3 == 2
-            got = cfg_history_real(path, hist, attrs, via_factory=via, keyfile=keyfile)
+            got = cfg_history_real(path, hist, attrs, via_factory=via, keyfile=keyfile if (tier == "quick" or fidx % 3 == 0) else None)
             ck.case(("cfg-history", text, tuple(hist), via), nontrivial=len(set(hist)) > 1,
                     sample={"text": text[:200], "history": hist, "answers": [str(g)[:80] for g in got]},
                     tags=("history", "history=cfg" + ("-factory" if via else ""), f"hist-len={len(hist)}"))
